@@ -50,6 +50,9 @@ CHECKS["C13"] = dict(engine="enum", technique="explicit-state model checking: BF
 CHECKS["C14"] = dict(engine="enum", technique="explicit-state model checking: BFS over Add/Remove/Refresh histories on the real hash selectors, canonical state = member set / ordered list, routing tables compared with an independent Ketama ring and across histories",
              text="Consistent hash (Ketama and default hash, weighted and unweighted) and mod-hash (plain, static weights), universe of 4-5 hosts, depth 5 (7): routing table over ~5300 probe codes (every ring point +-1, 0, 2^32-1, sweep) must equal an independently computed ring, be identical for all histories reaching the same set, and change only for codes of the removed / onto the added endpoint; mod-hash slot rule.",
              note="Ring-point collisions between hosts are excluded at start; the end-to-end hashed call is exercised in the C15 scenarios.", ref="§5 C14")
+CHECKS["C15"] = dict(engine="govm", technique="explicit-state model checking over event histories: every history is replayed on a fresh real endpoint manager inside one controlled execution (virtual clock, in-memory servers, all random draws enumerated); seeds = all prefixes of long scripted histories, neighbourhoods enumerated to depth 2 (3); long histories additionally under all schedules with one deviation",
+             text="Events: round-robin call, consistent-hash call, server i healthy/refusing/silent, clock +1/5/30/60 s (the 1 s status checker runs by itself). Per transition: no endpoint without failed calls leaves rotation, none with fewer than two failures since (re)instatement, 5 consecutive failures over 5 s put it out after the next check while another is active, probes at most once per 30 s, reinstated on the first successful probe and kept blocked after a failed one, calls still attempted when everything is blocked, hashed calls stable while the set is unchanged.",
+             note="'In rotation' read through an in-package accessor and cross-checked with where calls go; canonical keys (distinct outcomes) are computed from the real objects.", ref="§5 C15")
 NOT_YET = {}
 ALL = ["C%02d" % i for i in range(1, 21)]
 
